@@ -234,16 +234,22 @@ def m_map(R, args, kw, node):
     if it.concrete is not None:
         return const(Iter(it.n, None, concrete=[R.call_value(fn, [x], {}, node, None) for x in it.concrete]))
     seq = getattr(it, "seq", None)
-    if seq is not None and fn.is_const and isinstance(fn.z, DottedName):
+    _ext = R.ctx.c.externals.get(fn.z.name) if fn.is_const and isinstance(fn.z, DottedName) else None
+    if seq is not None and _ext is not None and _ext.pure and not _ext.raises and not _ext.event:
+        # (only for PURE externals: their result is an uninterpreted function of the element, so the pointwise fact may be quantified;
+        #  a callee under contract yields a fresh result constant per call, which must never be generalised over the index)
         # map(f, xs) over a sequence VALUE: the uninterpreted sequence map_f(xs) with its two defining facts (same term wherever the
         # same map is written - in code and in clauses - so no extensionality is needed to compare them)
         j = z3.Int(fresh_name("mj"))
+        n0 = len(R.pc)
         sample = R.call_value(fn, [V(seq.t.elem, nth(seq.z, j))], {}, node, None)
+        facts = list(R.pc[n0:])   # what the external's declared `ensures` say about THIS element: they belong under the quantifier
+        del R.pc[n0:]
         if not sample.t.heap and not sample.is_const:
             st = T.Seq(sample.t)
             mv = R.ctx.uf_apply(R, "map_" + fn.z.name.replace(".", "_"), [seq], st)
             R.assume(z3.Length(mv.z) == z3.Length(seq.z))
-            R.assume(z3.ForAll([j], z3.Implies(z3.And(0 <= j, j < z3.Length(seq.z)), nth(mv.z, j) == sample.z)))
+            R.assume(z3.ForAll([j], z3.Implies(z3.And(0 <= j, j < z3.Length(seq.z)), z3.And([nth(mv.z, j) == sample.z] + facts))))
             return const(Iter(z3.Length(mv.z), lambda k, mv=mv: V(mv.t.elem, nth(mv.z, k)), seq=mv))
     return const(Iter(it.n, at, src_locs=it.src_locs))
 
